@@ -2,10 +2,10 @@ package main
 
 import (
 	"fmt"
-	"os"
 	"go/constant"
 	"go/token"
 	"go/types"
+	"os"
 	"sort"
 	"strings"
 
@@ -55,9 +55,9 @@ type posixGate struct {
 	P        *Program
 	posix    int64
 	fns      []*ssa.Function
-	entry    map[*ssa.Function]bool            // function starts gated
-	truePred map[*ssa.Function]bool            // bool function: returns true only at gated points
-	gatedTok map[int64]bool                    // token constants only produced at gated points
+	entry    map[*ssa.Function]bool // function starts gated
+	truePred map[*ssa.Function]bool // bool function: returns true only at gated points
+	gatedTok map[int64]bool         // token constants only produced at gated points
 	callers  map[*ssa.Function][]ssa.Instruction
 	escapes  map[*ssa.Function]bool
 	tokType  types.Type
